@@ -403,6 +403,17 @@ fn run_case_inner(line: &str) -> String {
         }
         "kh" => { let (pd, _) = parse_pd(&t[1..]); kh_line(&pd, false) }
         "khbig" => { let (pd, _) = parse_pd(&t[1..]); kh_line(&pd, true) }
+        "khhuge" => {
+            // Euler characteristic of the library's bigraded homology of a diagram far above the 2^n limits
+            // (33..48 crossings); the model evaluates jones_model on the small isotopic diagram that follows
+            let (pd1, _k) = parse_pd(&t[1..]);
+            let l = mk_link(&pd1);
+            match euler_impl(&l, false) {
+                None => "EULER-DIFF KH-PANIC".to_string(),
+                Some(Err(s)) => s,
+                Some(Ok(e)) => fmt_poly(&e),
+            }
+        }
         "jinv" | "jinvbig" => {
             let (pd1, k) = parse_pd(&t[2..]);
             let (pd2, _) = parse_pd(&t[2 + k..]);
@@ -616,6 +627,34 @@ fn main() {
                 let pd = random_valid(&mut r, n, k % 2 == 0);
                 emit(&mut o, format!("jones {}", fmt_pd(&pd)));
                 if k % 5 == 0 { emit(&mut o, format!("jinv mirror {} {}", fmt_pd(&pd), fmt_pd(&mirror_pd(&pd)))); }
+            }
+            // 6. diagrams with more than 32 crossings (state words longer than 32 bits): a braid word u u^-1 v or a
+            //    shuffled 2-strand word, isotopic to the closure of the short word v; Euler characteristic of the
+            //    library's homology of the long closure vs the model's Jones polynomial of the short one
+            let nh = if thorough { 24 } else { 6 };
+            for k in 0..nh {
+                let (strands, long, short): (usize, Vec<i32>, Vec<i32>) = if k % 2 == 0 {
+                    let m = 1 + r.below(4) as i32;
+                    let sg: i32 = if r.bool() { 1 } else { -1 };
+                    let extra = 16 + r.below(6) as usize;
+                    let mut w: Vec<i32> = vec![];
+                    for _ in 0..(m as usize + extra) { w.push(sg); }
+                    for _ in 0..extra { w.push(-sg); }
+                    // shuffle
+                    for i in (1..w.len()).rev() { let j = r.below(i as u64 + 1) as usize; w.swap(i, j); }
+                    (2, w, vec![sg; m as usize])
+                } else {
+                    let lv = 2 + r.below(3) as usize;
+                    let v = full_word(&mut r, 3, lv);
+                    let lu = 16 + r.below(4) as usize;
+                    let u = random_word(&mut r, 3, lu);
+                    let mut w = u.clone();
+                    for x in u.iter().rev() { w.push(-*x); }
+                    w.extend(v.iter());
+                    (3, w, v)
+                };
+                let (Some(c1), Some(c2)) = (gen_closure(strands, &long), gen_closure(strands, &short)) else { continue };
+                emit(&mut o, format!("khhuge {} {}", fmt_pd(&pd_of_code(&c1)), fmt_pd(&pd_of_code(&c2))));
             }
             // 5. malformed stream
             let nm = if thorough { 3000 } else { 400 };
